@@ -3,15 +3,18 @@ C26 — Filtered member listings match whole names, statuses and tag values.
 
 Formal side: `SerfModel.Regex` (AST, span semantics `ends`, `search` = Go's
 `MatchString`, `fullMatch`).  `wrap r` is the AST of the template `^(?:%s)$` applied
-to a pattern whose own AST is `r`.  `filterMembers` (the translation of the Go
-function) takes the pattern engine as a parameter.
+to a pattern whose own AST is `r`.  `filterMembers` / `compileAnchored` (translations
+of the Go functions as of 990828f: validate the pattern alone, then wrap and compile)
+take the pattern engine as a parameter.
 
-What is assumed about the engine (`WrapOK`): compiling `template % p` succeeds exactly
-when `p` itself is a valid pattern, and yields the AST `wrap (parse p)`.  For Go's
-`regexp` this law is FALSE for a pattern that closes the template's group itself
-(`a)|(?:b`, not a valid pattern on its own): see `C26_escape_counterexample` and the
-recorded finding `pattern-escapes-group`; hence the `_partial` names.  The formal
-semantics is validated against Go's `regexp` by the `rx` differential of the harness.
+What is assumed about the engine (`EngineLaw`), for a parser `parse` of patterns:
+  * `regexp.Compile(p)` succeeds exactly when `p` is a valid pattern (`parse p` is defined);
+  * IF `p` is valid on its own, then `^(?:p)$` compiles and denotes `wrap (parse p)`.
+NOTHING is assumed about `^(?:p)$` for a `p` that is not valid on its own — Go's `regexp`
+happily compiles `^(?:a)|(?:b)$` for `p = a)|(?:b` — because the code now rejects such `p`
+before wrapping.  `escapingEngine` below satisfies the law AND has that escaping behaviour;
+`C26_escape_counterexample` keeps the witness for the pre-990828f shape (paste, then compile).
+The formal semantics is validated against Go's `regexp` by the `rx` differential of the harness.
 -/
 import SerfProofs.Lemmas.Regex
 import SerfModel.Gen.AnchorTemplate
@@ -33,10 +36,13 @@ theorem search_wrap (r : Regex) (w : List Char) : search (wrap r) w = fullMatch 
   unfold wrap
   cases h1 : search (.cat .bot (.cat (.group r) .eot)) w <;> cases h2 : fullMatch r w <;> simp_all
 
-/-- the template found in the source (all three filters) is the grouped one, the member loop
-has exactly the three documented skip conditions, and a member that passes them is appended -/
+/-- every filter expression (tag values, status, name) is compiled by `compileAnchored`; that
+helper validates the pattern on its own FIRST and only then compiles it inside `^(?:%s)$`; the
+member loop has exactly the three documented skip conditions, and a member that passes them is
+appended -/
 theorem C26_template_is_grouped :
-    Gen.AnchorTemplate.templates = [("expr", "^(?:%s)$"), ("status", "^(?:%s)$"), ("name", "^(?:%s)$")] ∧
+    Gen.AnchorTemplate.sites = [("expr", "compileAnchored"), ("status", "compileAnchored"), ("name", "compileAnchored")] ∧
+    Gen.AnchorTemplate.helperSteps = ["validate:expr", "wrap:^(?:%s)$:expr"] ∧
     Gen.AnchorTemplate.guards = ["!tagsRe[tag].MatchString(m.Tags[tag])",
       "status != \"\" && !statusRe.MatchString(m.Status.String())",
       "name != \"\" && !nameRe.MatchString(m.Name)"] ∧
@@ -48,40 +54,75 @@ def fullMatchP (parse : String → Option Regex) (p v : String) : Bool :=
   | some r => fullMatch r v.toList
   | none => false
 
-/-- The law assumed of the engine for the patterns of one request. -/
-def WrapOK (e : Engine) (parse : String → Option Regex) (pats : List String) : Prop :=
-  ∀ p ∈ pats, e.compiles p = (parse p).isSome ∧
-    ∀ r, parse p = some r → ∀ v, e.matchStr p v = search (wrap r) v.toList
+/-- The law assumed of the engine for the patterns of one request (see the file header). -/
+def EngineLaw (e : Engine) (parse : String → Option Regex) (pats : List String) : Prop :=
+  ∀ p ∈ pats, e.validAlone p = (parse p).isSome ∧
+    ∀ r, parse p = some r → e.compilesWrapped p = true ∧ ∀ v, e.matchStr p v = search (wrap r) v.toList
 
 def requested (tags : List (String × String)) (status name : String) : List String :=
   status :: name :: tags.map (·.2)
 
-/-- the engine that satisfies the law by construction (non-vacuity of `WrapOK`) -/
+/-- an engine that satisfies the law by construction (non-vacuity of `EngineLaw`) -/
 def formalEngine (parse : String → Option Regex) : Engine where
-  compiles p := (parse p).isSome
+  validAlone p := (parse p).isSome
+  compilesWrapped p := (parse p).isSome
   matchStr p v := match parse p with
     | some r => search (wrap r) v.toList
     | none => false
 
-example (parse : String → Option Regex) (pats : List String) : WrapOK (formalEngine parse) parse pats := by
+theorem formalEngine_law (parse : String → Option Regex) (pats : List String) :
+    EngineLaw (formalEngine parse) parse pats := by
   intro p _
-  refine ⟨rfl, fun r hr v => ?_⟩
-  simp [formalEngine, hr]
+  refine ⟨rfl, fun r hr => ⟨by simp [formalEngine, hr], fun v => by simp [formalEngine, hr]⟩⟩
 
-/-
-FULL STATEMENTS (for the real engine; not provable — the law `WrapOK` fails for Go's regexp
-on `a)|(?:b`):
-  C26_filter_exact: every pattern valid → the result is exactly the members whose name / status /
-    each requested tag value (missing = "") is fully matched; empty name/status = not requested.
-  C26_invalid_pattern: some requested pattern invalid → error and no list.
--/
+/-- An engine behaving like Go's on the escaping pattern: `a)|(?:b` is not valid alone, yet its
+wrapped form compiles (to `(^(?:a))|((?:b)$)`) and matches inside `ax`.  It satisfies the law
+too: the law does not speak about wrapped forms of patterns that are invalid alone. -/
+def escapingEngine : Engine where
+  validAlone p := p == "a|b"
+  compilesWrapped p := p == "a|b" || p == "a)|(?:b"
+  matchStr p v :=
+    if p == "a|b" then search (wrap (.alt (.char 'a') (.char 'b'))) v.toList
+    else if p == "a)|(?:b" then
+      search (.alt (.cat .bot (.group (.char 'a'))) (.cat (.group (.char 'b')) .eot)) v.toList
+    else false
+
+def tinyParse (p : String) : Option Regex := if p = "a|b" then some (.alt (.char 'a') (.char 'b')) else none
+
+theorem escapingEngine_law (pats : List String) : EngineLaw escapingEngine tinyParse pats := by
+  intro p _
+  by_cases h : p = "a|b"
+  · subst h
+    refine ⟨by decide, fun r hr => ?_⟩
+    have : r = .alt (.char 'a') (.char 'b') := by
+      have h2 : tinyParse "a|b" = some (.alt (.char 'a') (.char 'b')) := by decide
+      rw [h2] at hr; injection hr with hr; exact hr.symm
+    subst this
+    exact ⟨by decide, fun v => by simp [escapingEngine]⟩
+  · refine ⟨by simp [escapingEngine, tinyParse, h], fun r hr => ?_⟩
+    simp [tinyParse, h] at hr
+
+/-- with that engine the repaired filter rejects the escaping pattern (and the wrapped form,
+had it been used unvalidated, would have listed `ax`) -/
+example :
+    filterMembers escapingEngine [⟨"a", "alive", []⟩, ⟨"ax", "alive", []⟩] [] "a|b" "a)|(?:b" = none ∧
+    escapingEngine.compilesWrapped "a)|(?:b" = true ∧ escapingEngine.matchStr "a)|(?:b" "ax" = true := by decide
+
+theorem compileAnchored_eq (e : Engine) (parse : String → Option Regex) (pats : List String)
+    (hl : EngineLaw e parse pats) (p : String) (hp : p ∈ pats) :
+    compileAnchored e p = (parse p).isSome := by
+  obtain ⟨h1, h2⟩ := hl p hp
+  unfold compileAnchored
+  cases hpp : parse p with
+  | none => simp [h1, hpp]
+  | some r => simp [h1, hpp, (h2 r hpp).1]
 
 /-- **Exactness.**  All requested patterns valid ⇒ the list returned is exactly the members
 whose name, status and every requested tag value (a missing tag counts as empty) are matched
 over the WHOLE string; an empty status / name filter is "not requested". -/
-theorem C26_filter_exact_partial (e : Engine) (parse : String → Option Regex) (ms : List Member)
+theorem C26_filter_exact (e : Engine) (parse : String → Option Regex) (ms : List Member)
     (tags : List (String × String)) (status name : String)
-    (hw : WrapOK e parse (requested tags status name))
+    (hw : EngineLaw e parse (requested tags status name))
     (hvalid : ∀ p ∈ requested tags status name, (parse p).isSome = true) :
     filterMembers e ms tags status name = some (ms.filter fun m =>
       (tags.all fun tp => fullMatchP parse tp.2 (tagValue m tp.1)) &&
@@ -93,14 +134,14 @@ theorem C26_filter_exact_partial (e : Engine) (parse : String → Option Regex) 
     unfold fullMatchP
     cases hpp : parse p with
     | none => have := hvalid p hp; simp [hpp] at this
-    | some r => simp only []; rw [h2 r hpp v, search_wrap]
-  have hc : ∀ p ∈ requested tags status name, e.compiles p = true := by
-    intro p hp; rw [(hw p hp).1]; exact hvalid p hp
+    | some r => simp only []; rw [(h2 r hpp).2 v, search_wrap]
+  have hc : ∀ p ∈ requested tags status name, compileAnchored e p = true := by
+    intro p hp; rw [compileAnchored_eq e parse _ hw p hp]; exact hvalid p hp
   have hs : status ∈ requested tags status name := by simp [requested]
   have hn : name ∈ requested tags status name := by simp [requested]
   have ht : ∀ tp ∈ tags, tp.2 ∈ requested tags status name := by
     intro tp htp; simp only [requested, List.mem_cons, List.mem_map]; right; right; exact ⟨tp, htp, rfl⟩
-  have hct : (tags.all fun tp => e.compiles tp.2) = true := by
+  have hct : (tags.all fun tp => compileAnchored e tp.2) = true := by
     rw [List.all_eq_true]; intro tp htp; exact hc _ (ht tp htp)
   unfold filterMembers
   simp only [hct, hc status hs, hc name hn, Bool.not_true, Bool.false_eq_true, if_false]
@@ -117,23 +158,28 @@ theorem C26_filter_exact_partial (e : Engine) (parse : String → Option Regex) 
   rw [hall, hm status hs, hm name hn]
 
 /-- **An invalid pattern yields an error and no list** (whichever filter carries it, also an
-invalid status/name). -/
-theorem C26_invalid_pattern_partial (e : Engine) (parse : String → Option Regex) (ms : List Member)
+invalid status/name) — including patterns whose wrapped form the engine would compile. -/
+theorem C26_invalid_pattern (e : Engine) (parse : String → Option Regex) (ms : List Member)
     (tags : List (String × String)) (status name : String)
-    (hw : WrapOK e parse (requested tags status name))
+    (hw : EngineLaw e parse (requested tags status name))
     (hinv : ∃ p ∈ requested tags status name, parse p = none) :
     filterMembers e ms tags status name = none := by
   obtain ⟨p, hp, hnone⟩ := hinv
-  have hcp : e.compiles p = false := by rw [(hw p hp).1, hnone]; rfl
+  have hcp : compileAnchored e p = false := by rw [compileAnchored_eq e parse _ hw p hp, hnone]; rfl
   unfold filterMembers
   simp only [requested, List.mem_cons, List.mem_map] at hp
   rcases hp with rfl | rfl | ⟨tp, htp, rfl⟩
-  · by_cases h1 : (tags.all fun tp => e.compiles tp.2) = true <;> simp [h1, hcp]
-  · by_cases h1 : (tags.all fun tp => e.compiles tp.2) = true <;>
-      by_cases h2 : e.compiles status = true <;> simp [h1, h2, hcp]
-  · have : (tags.all fun tp => e.compiles tp.2) = false := by
+  · by_cases h1 : (tags.all fun tp => compileAnchored e tp.2) = true <;> simp [h1, hcp]
+  · by_cases h1 : (tags.all fun tp => compileAnchored e tp.2) = true <;>
+      by_cases h2 : compileAnchored e status = true <;> simp [h1, h2, hcp]
+  · have : (tags.all fun tp => compileAnchored e tp.2) = false := by
       rw [List.all_eq_false]; exact ⟨tp, htp, by simp [hcp]⟩
     simp [this]
+
+/-- non-vacuity of `C26_invalid_pattern`'s hypotheses: the escaping request -/
+example : EngineLaw escapingEngine tinyParse (requested [] "a|b" "a)|(?:b") ∧
+    ∃ p ∈ requested [] "a|b" "a)|(?:b", tinyParse p = none :=
+  ⟨escapingEngine_law _, "a)|(?:b", by simp [requested], by decide⟩
 
 /-- non-vacuity: a request with an alternation, the formal engine, a two-symbol parser -/
 example : filterMembers (formalEngine fun p => if p = "a|b" then some (.alt (.char 'a') (.char 'b')) else if p = "" then some .empty else none)
@@ -147,9 +193,10 @@ theorem C26_unanchored_alt :
     fullMatch (.alt (.char 'a') (.char 'b')) "ax".toList = false ∧
     search (wrap (.alt (.char 'a') (.char 'b'))) "ax".toList = false := by decide
 
-/-- Negation witness for the engine law (recorded finding `pattern-escapes-group`): the
-template applied to `a)|(?:b` reads `^(?:a)|(?:b)$`, i.e. `(^(?:a))|((?:b)$)`: Go compiles it
-(although `a)|(?:b` alone is not a valid pattern) and it matches inside `ax` and `xb`. -/
+/-- Regression witness (repaired in 990828f) for the OLD shape — paste the pattern into the
+template, then compile, without validating it alone: the template applied to `a)|(?:b` reads
+`^(?:a)|(?:b)$`, i.e. `(^(?:a))|((?:b)$)`: Go compiles it (although `a)|(?:b` alone is not a
+valid pattern) and it matches inside `ax` and `xb`. -/
 theorem C26_escape_counterexample :
     search (.alt (.cat .bot (.group (.char 'a'))) (.cat (.group (.char 'b')) .eot)) "ax".toList = true ∧
     search (.alt (.cat .bot (.group (.char 'a'))) (.cat (.group (.char 'b')) .eot)) "xb".toList = true := by decide
